@@ -313,7 +313,7 @@ impl<'a, 'tcx> Ctx<'a, 'tcx> {
                 self.operand(&ab.1)
             ),
             Rvalue::UnaryOp(op, a) => format!("{{\"r\":\"un\",\"op\":\"{:?}\",\"a\":{}}}", op, self.operand(a)),
-            Rvalue::Discriminant(p) => format!("{{\"r\":\"discr\",\"p\":{}}}", self.place(p)),
+            Rvalue::Discriminant(p) => format!("{{\"r\":\"discr\",\"p\":{},\"ty\":{}}}", self.place(p), esc(&ty_str(p.ty(self.body, tcx).ty))),
             Rvalue::Aggregate(kind, fields) => {
                 let mut o = String::from("{\"r\":\"agg\"");
                 match &**kind {
